@@ -564,6 +564,38 @@ pub fn closing_probe<G: Cv>(sh: &Shared<G>, h: &[u8]) -> Option<Vec<String>> {
         Ok(true) => {}
         other => problems.push(format!("{}: constraining the open gate's right wire and output to 0 was not accepted: {:?}", prog.name(), other)),
     }
+    // control for the reject probes: shifting the constant of a constraint on a wire of known value
+    // at the same place must be rejected, otherwise soundness of linear constraints itself is broken
+    // there (C02's business) and the probes say nothing
+    {
+        use ark_ff::One;
+        let mut ctl = prog.clone();
+        let swap = |ops: &mut Vec<Op>| {
+            for o in ops.iter_mut() {
+                if *o == Op::K(Shape::R) {
+                    *o = Op::K(Shape::A);
+                }
+            }
+        };
+        swap(&mut ctl.p1);
+        for c in ctl.closures.iter_mut() {
+            swap(c);
+        }
+        let ok = kpos.iter().step_by(2).all(|k| {
+            guarded(|| {
+                let dev = Dev::KConst { k: *k, delta: G::ScalarField::one(), both: true };
+                let pr = program::prove::<G>(&ctl, &sh.env.pc, &sh.env.bp, sh.seed, "c16-probe", dev.clone());
+                match pr.proof.ok().and_then(|b| R1CSProof::<G>::from_bytes(&b).ok()) {
+                    Some(proof) => program::verify::<G>(&ctl, &sh.env.pc, &sh.env.bp, sh.seed, dev, &pr.commitments, &proof, program::LABEL).result.is_err(),
+                    None => true,
+                }
+            })
+            .unwrap_or(false)
+        });
+        if !ok {
+            return Some(problems);
+        }
+    }
     for k in kpos {
         use ark_ff::One;
         match run(Dev::KConst { k, delta: G::ScalarField::one(), both: true }) {
